@@ -1,4 +1,6 @@
-package parquet_test
+package scratch
+
+// D93 (C01): failed before the fix commit; see known_findings.json.
 
 // PRE-EXISTING (fails on the unchanged tree): GenericReader.Read into a
 // destination slice that is reused between calls (the usual read loop) does
@@ -17,7 +19,7 @@ import (
 	"github.com/parquet-go/parquet-go"
 )
 
-func TestPreexisting4MapFieldOfReusedReadBuffer(t *testing.T) {
+func TestD93ReusedMapDestination(t *testing.T) {
 	type row struct {
 		M map[string]int64 `parquet:"m"`
 	}
